@@ -292,7 +292,7 @@ pub fn run(rep: &Report) {
     }
     rep.set_exhaustive(true);
     rep.add_extra("sequence_bound", json!(format!("all sequences of length <= {} over the 17-symbol alphabet (base + true)", max_len)));
-    let n = rep.tier.pick(200_000u64, 3_000_000);
+    let n = rep.tier.pick(200_000u64, 9_000_000);
     let depth = rep.tier.pick(4u32, 6);
     common::random_search(
         rep,
@@ -315,7 +315,7 @@ pub fn run(rep: &Report) {
 /// evaluate successfully) with one token deleted: a dead branch must not hide a missing operand.
 fn planted_typed(rep: &Report) {
     use proptest::prelude::*;
-    let n = rep.tier.pick(150_000u64, 2_000_000);
+    let n = rep.tier.pick(150_000u64, 6_000_000);
     common::random_search(
         rep,
         "planted-typed",
